@@ -28,13 +28,17 @@ func TestC14Stress(t *testing.T) {
 	ev.Rule(sub, "rapid, binary built with -race: generated stack (memory/UDP bases, every layer kind to depth 2, P2PKE and QUIC included), 2-3 nodes, 4-12 goroutines per node mixing Tell, Ask, Receive, ServeAsk, LookupPublicKey, LocalAddrs, MTU for ~150 ms, then Close while calls are still running. Every receive callback checksums its payload at entry, overwrites it with its own pattern (the interface allows modification), yields, and verifies its own pattern at exit; deliveries are checked against the C01 ledger. Oracle: no race report with a frame of the library (reports confined to third-party packages are logged, not counted), callback views stable from entry to exit, ledger holds. non-trivial = >= 2 goroutines per method on one swarm; distinct by (spec, goroutine mix)")
 	rapid.Check(t, func(t *rapid.T) {
 		spec := genSpec(t, specOpts{maxDepth: 2, bases: []string{"mem", "mem", "mem", "udp"}, honestFrag: true, smallQueues: true})
-		if rapid.IntRange(0, 2).Draw(t, "shortQueueFragmenting") == 0 {
+		switch rapid.IntRange(0, 3).Draw(t, "shortQueueFragmenting") {
+		case 0:
 			// a fragmenting / message-box layer directly on a transport that recycles its few receive buffers quickly
 			top := stack.Layer{Kind: "frag", MTU: 2000}
 			if rapid.Bool().Draw(t, "mbappTop") {
 				top = stack.Layer{Kind: "mbapp", MTU: 2000, N: 2}
 			}
 			spec = stack.Spec{Base: "mem", BaseMTU: rapid.SampledFrom([]int{100, 256}).Draw(t, "innerMTU"), QueueLen: rapid.SampledFrom([]int{2, 4, 8}).Draw(t, "shortQueue"), Layers: []stack.Layer{top}}
+		case 1:
+			// a decrypting layer on top: its receive workers run concurrently and hand their plaintext straight to the callbacks
+			spec = stack.Spec{Base: rapid.SampledFrom([]string{"mem", "mem", "udp"}).Draw(t, "secBase"), BaseMTU: 1500, QueueLen: rapid.SampledFrom([]int{4, 64}).Draw(t, "secQueue"), Layers: []stack.Layer{{Kind: "p2pke"}}}
 		}
 		cbWork := time.Duration(rapid.SampledFrom([]int{0, 0, 200, 1000}).Draw(t, "callbackMicros")) * time.Microsecond
 		nNodes := rapid.IntRange(2, 3).Draw(t, "nodes")
